@@ -21,6 +21,9 @@ rnd = random.Random(job.get('seed', 0))
 evaluations = 0
 mismatches = []
 NONE = -1
+VALUE_ERR = -3
+BADNAME = '<not a string>'
+BAD_NAMES = [None, b'', 0, (), b'n', 1.5, False]
 DEFAULT = object()
 
 
@@ -208,6 +211,12 @@ class World:
 
     def one_lookup(self, via, g, req, p, name):
         """returns (value id found, extra mismatch text or None)"""
+        if name == BADNAME:
+            try:
+                self.one_lookup(via, g, req, p, rnd.choice(BAD_NAMES))
+            except ValueError:
+                return VALUE_ERR, None
+            return 'no ValueError', None
         r = self.reg[g]
         P = self.prov[p]
         specs = self.req(req)
@@ -325,7 +334,8 @@ class World:
     def probe(self, obs, ctx, bookkeeping=True, allvariants=True):
         for g in sorted(self.reg):
             o = fget(obs, g)
-            for q in o['look']:
+            # non-string names last: on caches warmed by the probes before
+            for q in sorted(o['look'], key=lambda q: q['name'] == BADNAME):
                 self.q_lookup(g, q['req'], q['prov'], q['name'], q['adm'],
                               ctx, variants=None if allvariants else
                               ['lookup'])
@@ -334,7 +344,8 @@ class World:
                 byk.setdefault((tuple(q['req']), q['prov']), {})[
                     q['name']] = q['adm']
             for (req, p), names in byk.items():
-                adm = {nm: a for nm, a in names.items() if NONE not in a}
+                adm = {nm: a for nm, a in names.items()
+                       if NONE not in a and nm != BADNAME}
                 # names with NONE admissible only: absent from lookupAll
                 self.q_lookupall(g, list(req), p, adm, ctx)
             for q in o['subs']:
